@@ -61,7 +61,8 @@ def gen_case(rng: random.Random, idx):
         for t in leaves:
             if rng.random() < 0.4:
                 old[t] = [rng.randint(-5, 5) for _ in range(numel(prog.shapes[t]))]
-        ks = [None, 1, 2, m, m + 1]
+        # 3 and m - 1: chunk sizes that leave a ragged last chunk for most m (ceil vs round vs floor)
+        ks = list(dict.fromkeys([None, 1, 2, 3, max(m - 1, 1), m, m + 1]))
         return {"id": idx, "prog": prog.to_json(), "outs": outs, "inputs": inputs, "agg": list(agg),
                 "old": {str(k): v for k, v in old.items()}, "ks": ks, "m": m}
     raise RuntimeError("no case")
